@@ -169,9 +169,11 @@ def server_run(streams):
     return res, excs
 
 
-def split_responses(out):
-    """status codes of the responses in `out` (responses here always carry Content-Length)"""
-    codes, pos = [], 0
+def split_responses(out, methods=()):
+    """status codes of the responses in `out` (responses here always carry Content-Length).
+    `methods`: the request methods in order — the j-th final (non-1xx) response answers the j-th
+    request, and a response to HEAD carries Content-Length but no body."""
+    codes, pos, j = [], 0, 0
     while pos < len(out):
         i = out.find(b"\r\n\r\n", pos)
         if i < 0 or not out.startswith(b"HTTP/", pos):
@@ -185,6 +187,10 @@ def split_responses(out):
         for l in head.split(b"\r\n")[1:]:
             if l.lower().startswith(b"content-length:"):
                 n = int(l.split(b":", 1)[1])
+        if code >= 200:
+            if j < len(methods) and methods[j].upper() == b"HEAD":
+                n = 0
+            j += 1
         codes.append(code); pos = i + 4 + n
     return codes
 
@@ -194,7 +200,7 @@ def oracle_server(ctx, data, o_parser, out, closed, escaped):
     if escaped:
         ctx.violation(f"C05/exception-escaped-data_received/{escaped}", case, f"{escaped} left RequestHandler.data_received")
         return
-    codes = split_responses(out)
+    codes = split_responses(out, [e[2][0] for e in o_parser["events"] if e[0] == "M"])
     if -1 in codes:
         ctx.violation("C01/server/garbled-response-stream", case, f"response stream does not split into responses: {out[:80]!r}")
         return
@@ -212,9 +218,10 @@ def oracle_server(ctx, data, o_parser, out, closed, escaped):
                 n_complete += 1; cur = None
         if cur == "nopayload":
             n_complete += 1
-        if len(codes) < n_complete:
+        finals = [c for c in codes if c >= 200]
+        if len(finals) < n_complete:
             ctx.violation("C05/server/request-unanswered-connection-open", case,
-                          f"{n_complete} complete requests parsed, {len(codes)} responses, connection left open")
+                          f"{n_complete} complete requests parsed, {len(finals)} final responses, connection left open")
     if o_parser["err"] is not None:
         # parse error ⇒ a client error is sent and the connection is closed
         if not codes or not (400 <= codes[-1] < 500):
